@@ -412,17 +412,25 @@ def run(cfg):
     finally:
         restore()
 
+    from . import c18_dfcache
+    df_units = c18_dfcache.units(cfg)
+
     def worker(us):
         t = {}
-        for conf, roots, b in us:
-            if roots == 'root-only':
-                r = explore_unit((conf, [[]], -1))        # bound -1: run the default schedule, generate nothing
+        for u in us:
+            if u[0] == 'df':
+                r = c18_dfcache.explore_unit(u[1])
+                r = dict(r, df_executions=r['executions'])
             else:
-                r = explore_unit((conf, roots, b))
+                conf, roots, b = u
+                if roots == 'root-only':
+                    r = explore_unit((conf, [[]], -1))        # bound -1: run the default schedule, generate nothing
+                else:
+                    r = explore_unit((conf, roots, b))
             runner.merge_counts(t, r)
         return t
 
-    for part in runner.pmap(worker, units, cfg, chunk=1, pin=True):
+    for part in runner.pmap(worker, units + [('df', u) for u in df_units], cfg, chunk=1, pin=True):
         runner.merge_counts(total, part)
     rep.extend_violations(total.get('violations', []))
     outcomes = total.get('outcomes', {})
@@ -439,6 +447,8 @@ def run(cfg):
         'executions': total.get('executions', 0),
         'executions_by_preemptions': total.get('by_preemptions', {}),
         'configurations': len(confs),
+        'dataframe_cache_configurations': len(c18_dfcache.configurations(cfg.quick)),
+        'dataframe_cache_executions': total.get('df_executions', 0),
         'distinct_outcomes': n_out,
         'configurations_with_a_single_outcome': single,
         'max_points_per_execution': total.get('max_points', 0),
@@ -463,6 +473,9 @@ def replay(cfg, path):
     with open(path) as f:
         r = json.load(f)
     case = r['case']
+    if case.get('family') == 'df':
+        from . import c18_dfcache
+        return c18_dfcache.replay(case)
     conf = next(c for c in configurations(False) if c['name'] == case['config'])
     try:
         obs = []
